@@ -34,9 +34,19 @@ def atom_text(a: dict) -> str:
     return f'"{v}" <= python_version' if a["rev"] else f'python_version >= "{v}"'
 
 
+GX, GY = 'sys_platform == "x"', 'platform_machine == "y"'
+
+
+def group_text(g) -> str:
+    return " or ".join(f'os_name == "{v}"' for v in g)
+
+
 def run_op(op: dict):
     """One operation as a user would write it: parse the two texts, combine."""
     from dep_logic.markers import parse_marker
+    if op["kind"] in ("and_or", "or_and"):          # MemoGroups: (g & X) | Y   /   (g | X) & Y, built through the operators
+        g, x, y = parse_marker(op["x"]), parse_marker(GX), parse_marker(GY)
+        return ((g & x) | y) if op["kind"] == "and_or" else ((g | x) & y)
     x, y = parse_marker(op["x"]), parse_marker(op["y"])
     if op["kind"] == "and":
         return x & y
@@ -90,11 +100,17 @@ def _operand_class(op: dict) -> str:
     return "atoms" if all(" and " not in t and " or " not in t for t in texts) else "compound"
 
 
+def _hist_of(st) -> list[dict]:
+    if st["hist"] and "shape" in st["hist"][0]:          # MemoGroups
+        return [{"kind": o["shape"], "x": group_text(o["g"]), "y": ""} for o in st["hist"]]
+    return [{"kind": o["kind"], "x": atom_text(o["x"]), "y": atom_text(o["y"])} for o in st["hist"]]
+
+
 def _b2_chunk(args):
     states, cold_map = args
     fails, n, drift = [], 0, 0
     for st in states:
-        hist = [{"kind": o["kind"], "x": atom_text(o["x"]), "y": atom_text(o["y"])} for o in st["hist"]]
+        hist = _hist_of(st)
         n += 1
         try:
             drive_marker.clear_caches()
@@ -117,6 +133,8 @@ def _b2_chunk(args):
         elif not text_ok:
             if not spec_text_ok and cls == "first-caller-reversed":
                 fails.append(("C10:text:first-caller-reversed", f"after {hist[:-1]} the probe {hist[-1]} prints {warm[0]!r}; from empty caches {cold[0]!r}", ctx))
+            elif not spec_text_ok and cls == "first-caller-group-order" and hist[-1]["kind"] in ("and_or", "or_and"):
+                fails.append(("C10:text:first-caller-group-order:compound", f"after {hist[:-1]} the probe {hist[-1]} prints {warm[0]!r}; from empty caches {cold[0]!r}", ctx))
             else:
                 fails.append((f"C10:text:differs-{cls}", f"after {hist[:-1]} the probe {hist[-1]} prints {warm[0]!r}; from empty caches {cold[0]!r} (the model predicts {'a difference' if not spec_text_ok else 'no difference'})", ctx))
         elif not spec_text_ok:
@@ -432,7 +450,26 @@ def run(pid: str, tier: str, replay: str | None = None) -> int:
         shutil.rmtree(tmp, ignore_errors=True)
     total = 0
     drift = 0
-    probes = [{"kind": st["hist"][-1]["kind"], "x": atom_text(st["hist"][-1]["x"]), "y": atom_text(st["hist"][-1]["y"])} for st in states]
+    # second model: ==-groups (MemoGroups.tla), same binding
+    tmp = tempfile.mkdtemp(prefix="verif_memog_")
+    try:
+        cfgp = os.path.join(tmp, "c.cfg")
+        open(cfgp, "w").write('SPECIFICATION Spec\nCONSTANTS\n Letters = {"a", "b", "c"}\n MaxHist = 3\nINVARIANT MeaningTransparent\nINVARIANT FirstCallerGroupOrder\nCHECK_DEADLOCK FALSE\n')
+        d = os.path.join(tmp, "d")
+        r2 = tla.run_tlc("MemoGroups.tla", cfgp, workers=16, args=["-dump", d])
+        if r2.violated:
+            rep.violation(f"C10:spec:MemoGroups:{r2.violated}", f"TLC: invariant {r2.violated} violated in MemoGroups", {"tlc_tail": r2.out[-1500:]})
+            gstates = []
+        else:
+            tla.require_ok(r2, "TLC MemoGroups")
+            gstates = [s for s in tla.load_dump(d + ".dump") if s["hist"]]
+        rep.add("states", r2.distinct)
+        rep.add("transitions", r2.generated)
+        rep.count("b2_group_histories", len(gstates))
+    finally:
+        shutil.rmtree(tmp, ignore_errors=True)
+    states = states + gstates
+    probes = [_hist_of(st)[-1] for st in states]
     cold_map = cold_results(probes)
     rep.count("b2_distinct_probes_cold_in_fresh_interpreter", len(cold_map))
     for n, fails, dr in _pmap(_b2_chunk, [(ch, cold_map) for ch in _split(states)]):
@@ -443,7 +480,7 @@ def run(pid: str, tier: str, replay: str | None = None) -> int:
     rep.count("b2_histories", len(states))
     rep.count("algorithm_drift", drift)
     rep.count("model_predicts_text_difference", sum(1 for s in states if not s["last"]["text_ok"]))
-    rep.sample({"binding": "B2", "history": [{"kind": o["kind"], "x": atom_text(o["x"]), "y": atom_text(o["y"])} for o in states[-1]["hist"]], "model": states[-1]["last"]})
+    rep.sample({"binding": "B2", "history": _hist_of(states[-1]), "model": states[-1]["last"]})
     # ---- B3: random histories, every position probed
     nh = 6000 if thorough else 800
     length = 30 if thorough else 14
